@@ -17,7 +17,7 @@ import sys
 import time
 
 HERE = os.path.dirname(os.path.dirname(os.path.abspath(__file__)))
-SCRATCH = "/tmp/seedconfirm"
+SCRATCH = os.environ.get("SEED_SCRATCH", "/tmp/seedconfirm")
 ENV = dict(os.environ, CARGO_NET_OFFLINE="true", CARGO_BUILD_JOBS="8")
 
 
@@ -89,7 +89,7 @@ def run_copy(d, ids):
     meta = json.load(open(os.path.join(d, "meta.json")))
     ids = ids or [meta["property"]]
     patch = os.path.abspath(os.path.join(d, "patch.diff"))
-    srepo, sverif = "/tmp/seedrepo", "/tmp/vseed"
+    srepo, sverif = os.environ.get("SEED_REPO", "/tmp/seedrepo"), os.environ.get("SEED_VERIF", "/tmp/vseed")
     head = sh("git -C /repo rev-parse HEAD")[1].strip()
     if not os.path.isdir(srepo):
         rc, out = sh("git -C /repo worktree add --detach %s HEAD" % srepo)
